@@ -5,9 +5,11 @@ os.chdir(root)
 props={}
 for l in open('/verif/properties.jsonl'):
     p=json.loads(l); props[p['id']]=set(p['anchors']['files'])
-extra={'C07':{'lzma/decoderdict.go','lzma/buffer.go'},'C02':{'lzma/encoderdict.go','lzma/buffer.go'},'C06':{'lzma/encoderdict.go','lzma/buffer.go','lzma/rangecodec.go','lzma/state.go','lzma/literalcodec.go','lzma/lengthcodec.go','lzma/distcodec.go','lzma/treecodecs.go','lzma/prob.go'}}
+extra={'C12':{'format.go'},'C07':{'lzma/decoderdict.go','lzma/buffer.go'},'C02':{'lzma/encoderdict.go','lzma/buffer.go'},'C06':{'lzma/encoderdict.go','lzma/buffer.go','lzma/rangecodec.go','lzma/state.go','lzma/literalcodec.go','lzma/lengthcodec.go','lzma/distcodec.go','lzma/treecodecs.go','lzma/prob.go'}}
 for k,v in extra.items(): props[k]|=v
-pairs=[('C06','C01'),('C07','C03'),('C02','C01'),('C07','C11'),('C06','C09')]
+pairs=[('C06','C01'),('C07','C03'),('C02','C01'),('C07','C11'),('C06','C09'),
+       # reader side: completeness, soundness, truncation and no-panic obligations of one function belong to all four
+       ('C03','C04'),('C03','C05'),('C03','C11'),('C04','C03'),('C04','C05'),('C04','C11'),('C11','C03'),('C11','C04'),('C11','C05'),('C05','C03'),('C05','C04'),('C12','C04'),('C12','C05'),('C13','C05')]
 tot={}
 for pkgdir,cfile in [('.','zz_contracts_verif.go'),('lzma','lzma/zz_contracts_verif.go')]:
     decls={}
